@@ -129,6 +129,7 @@ type c09Sub struct {
 type c09KeyInfo struct {
 	index     int64
 	timestamp int64
+	restarts  int // number of restarts before the entry was logged
 	fps       []string // fingerprint lists (joined) of every accepted submission of this entry
 }
 
@@ -150,8 +151,8 @@ type c09Scenario struct {
 	tree     vfref.Tree
 	known    map[[32]byte]*c09KeyInfo
 	history  []c09Spec
-	reloaded bool
 	restarts int
+	forceTyp int // >= 0: every leaf gets this certificate type
 }
 
 var (
@@ -174,14 +175,21 @@ func c09Witness(i int) *mldsa.PrivateKey {
 	return k
 }
 
-func TestVerifC09Submissions(t *testing.T) {
-	rec := vfstat.New("C09Submissions")
+func TestVerifC09Submissions(t *testing.T) { c09Test(t, "C09Submissions", -1) }
+
+// TestVerifC09PoisonTwice runs the same scenarios with every leaf carrying
+// two poison extensions (a malformed precertificate: RFC 5280 forbids
+// repeated extensions), which must be refused with a client error.
+func TestVerifC09PoisonTwice(t *testing.T) { c09Test(t, "C09PoisonTwice", c09TypPoisonTwice) }
+
+func c09Test(t *testing.T, name string, forceTyp int) {
+	rec := vfstat.New(name)
 	defer rec.Flush()
 	defer ctlog.SetTimeNowUnixMilli(monotonicTime)
 	synctest.Test(t, func(t *testing.T) {
 		// rapid.Check asks *testing.T for its deadline, which is not allowed
 		// inside a synctest bubble; a wrapper type makes it skip that call.
-		rapid.Check(c09RapidTB{t}, func(rt *rapid.T) { c09Run(t, rt, rec) })
+		rapid.Check(c09RapidTB{t}, func(rt *rapid.T) { c09Run(t, rt, rec, forceTyp) })
 	})
 }
 
@@ -195,12 +203,12 @@ func c09RealNanos() int64 {
 	return ts.Nano()
 }
 
-func c09Run(outer *testing.T, rt *rapid.T, rec *vfstat.Recorder) {
+func c09Run(outer *testing.T, rt *rapid.T, rec *vfstat.Recorder, forceTyp int) {
 	// Let the bubble's virtual clock follow real time, so that rapid's
 	// time-based limits (shrinking budget) keep their meaning.
 	t0 := c09RealNanos()
 	defer func() { time.Sleep(time.Duration(c09RealNanos() - t0)) }()
-	sc := &c09Scenario{rt: rt, rec: rec, accepted: map[int]bool{}, known: map[[32]byte]*c09KeyInfo{}}
+	sc := &c09Scenario{rt: rt, rec: rec, accepted: map[int]bool{}, known: map[[32]byte]*c09KeyInfo{}, forceTyp: forceTyp}
 	wi := rapid.IntRange(0, len(c09WindowStarts)-1).Draw(rt, "windowStart")
 	si := rapid.IntRange(0, len(c09WindowSpans)-1).Draw(rt, "windowSpan")
 	sc.start = c09WindowStarts[wi]
@@ -239,7 +247,11 @@ func c09Run(outer *testing.T, rt *rapid.T, rec *vfstat.Recorder) {
 	if err != nil {
 		rt.Fatalf("VERIF-INCONCLUSIVE: LoadLog of a fresh log: %v", err)
 	}
-	defer func() { sc.log.CloseCache() }()
+	defer func() {
+		if sc.log != nil {
+			sc.log.CloseCache()
+		}
+	}()
 	sc.handler = sc.log.Handler()
 	sc.checkRoots("on a fresh log")
 
@@ -324,20 +336,19 @@ func (sc *c09Scenario) reload(nonEmpty bool) {
 		sc.lastPEM = bytes.Clone(buf.Bytes())
 		sc.rec.Add(fmt.Sprintf("reload-to-%d-roots", len(sel)), 1)
 	}
-	sc.reloaded = true
 	sc.rec.Add("reloads", 1)
 	sc.checkRoots("after " + what)
 }
 
 func (sc *c09Scenario) restart() {
 	rt := sc.rt
-	if err := sc.log.CloseCache(); err != nil {
+	old := sc.log
+	sc.log = nil
+	if err := old.CloseCache(); err != nil {
 		rt.Fatalf("VERIF-INCONCLUSIVE: CloseCache: %v", err)
 	}
 	l, err := ctlog.LoadLog(context.Background(), sc.cfg)
 	if err != nil {
-		// keep sc.log closable
-		sc.log, _ = ctlog.LoadLog(context.Background(), sc.cfg)
 		rt.Fatalf("restart: LoadLog over the same backends failed: %v", err)
 	}
 	sc.log = l
@@ -493,7 +504,7 @@ func (sc *c09Scenario) genSpec() (c09Spec, string) {
 		case f == 3:
 			sp.endpoint = 1 - sp.endpoint
 		case f == 4:
-			sp.typ = rapid.IntRange(c09TypPoisonNonCritical, c09NumTyp-1).Draw(rt, "poison")
+			sp.typ = rapid.IntRange(c09TypPoisonNonCritical, c09MaxTyp()).Draw(rt, "poison")
 			sp.endpoint = rapid.IntRange(0, 1).Draw(rt, "endpoint")
 		case f >= 6 && f <= 14:
 			sp.defect = f - 5
@@ -512,7 +523,7 @@ func (sc *c09Scenario) genSpec() (c09Spec, string) {
 		sp.serial = rapid.IntRange(1, 3).Draw(rt, "serial")
 		sp.pos = rapid.IntRange(0, c09NumPos-1).Draw(rt, "pos")
 		sp.eku = rapid.IntRange(0, c09NumEKU-1).Draw(rt, "eku")
-		sp.typ = rapid.IntRange(0, c09NumTyp-1).Draw(rt, "typ")
+		sp.typ = rapid.IntRange(0, c09MaxTyp()).Draw(rt, "typ")
 		sp.endpoint = rapid.IntRange(0, 1).Draw(rt, "endpoint")
 		if rapid.IntRange(0, 9).Draw(rt, "withDefect") >= 7 {
 			sp.defect = rapid.IntRange(1, c09NumDef-1).Draw(rt, "defect")
@@ -561,7 +572,7 @@ func c09Body(chain [][]byte) []byte {
 }
 
 // build materialises a spec under the current accepted root set.
-func (sc *c09Scenario) build(sp c09Spec, mode string) *c09Sub {
+func (sc *c09Scenario) build(sp c09Spec) *c09Sub {
 	rt := sc.rt
 	s := &c09Sub{spec: sp}
 	rootID := sc.roots[sp.rootIdx]
@@ -710,7 +721,7 @@ func (sc *c09Scenario) build(sp c09Spec, mode string) *c09Sub {
 	// (linking part only), for submissions whose first element is the leaf.
 	switch sp.defect {
 	case c09DefNone, c09DefMissingInter, c09DefUnrelatedExtra, c09DefBadSigLeaf, c09DefBadSigInter, c09DefWrongOrder:
-		if bytes.Equal(chain[0], s.leafDER) {
+		if bytes.Equal(chain[0], s.leafDER) && sp.typ != c09TypPoisonTwice { // crypto/x509 refuses to parse repeated extensions
 			links := rootAccepted && sp.defect != c09DefMissingInter && sp.defect != c09DefBadSigLeaf && sp.defect != c09DefBadSigInter
 			ok, skipped, err := c09StdVerify(chain[0], chain[1:], sc.acceptedDER())
 			if err != nil {
@@ -742,7 +753,6 @@ func (sc *c09Scenario) build(sp c09Spec, mode string) *c09Sub {
 	s.desc = fmt.Sprintf("%s R%d(%s%s) I%d%s %s ser=%d na=%s eku=%s type=%s ep=%s defect=%s", sc.winDesc, rootID, acc,
 		map[bool]string{true: ",ctEKU", false: ""}[c09RootHasCTEKU(rootID)], sp.nInter, pre, rootIn, sp.serial,
 		c09PosNames[sp.pos], c09EKUNames[sp.eku], c09TypNames[sp.typ], c09Endpoints[sp.endpoint], defDesc)
-	_ = mode
 	return s
 }
 
@@ -755,8 +765,11 @@ func (sc *c09Scenario) round() {
 	modes := make([]string, n)
 	for i := range subs {
 		sp, mode := sc.genSpec()
+		if sc.forceTyp >= 0 {
+			sp.typ = sc.forceTyp
+		}
 		sp = c09Normalize(sp)
-		subs[i] = sc.build(sp, mode)
+		subs[i] = sc.build(sp)
 		modes[i] = mode
 		sc.history = append(sc.history, sp)
 	}
@@ -798,6 +811,9 @@ func (sc *c09Scenario) round() {
 	// 1. verdicts
 	for _, s := range subs {
 		what := fmt.Sprintf("[%s] reasons=%v", s.desc, s.reasons)
+		if s.code >= 500 {
+			what += fmt.Sprintf("\n  request: POST /ct/v1/%s %s", c09Endpoints[s.spec.endpoint], c09ClipN(s.body, 6000))
+		}
 		switch s.expect {
 		case c09Accept:
 			if s.code != 200 {
@@ -892,9 +908,6 @@ func (sc *c09Scenario) round() {
 		} else if idx < oldSize {
 			rt.Fatalf("new entry got leaf_index %d below the previous tree size %d\n  %s", idx, oldSize, what)
 		}
-		if err := c09VerifySCT(&sc.cfg.Key.PublicKey, s.sct, s.entry); err != nil {
-			rt.Fatalf("SCT: %v\n  %s", err, what)
-		}
 		st, err := store.leaf(cp.Size, idx)
 		if err != nil {
 			rt.Fatalf("reading leaf %d: %v\n  %s", idx, err, what)
@@ -910,9 +923,12 @@ func (sc *c09Scenario) round() {
 		if st.Index != idx || st.Timestamp != int64(*s.sct.Timestamp) {
 			rt.Fatalf("stored leaf has (index %d, timestamp %d), SCT says (index %d, timestamp %d)\n  %s", st.Index, st.Timestamp, idx, *s.sct.Timestamp, what)
 		}
+		if err := c09VerifySCT(&sc.cfg.Key.PublicKey, s.sct, s.entry); err != nil {
+			rt.Fatalf("SCT: %v\n  %s", err, what)
+		}
 		info := sc.known[s.key]
 		if info == nil {
-			info = &c09KeyInfo{index: idx, timestamp: st.Timestamp}
+			info = &c09KeyInfo{index: idx, timestamp: st.Timestamp, restarts: sc.restarts}
 			sc.known[s.key] = info
 		}
 		info.fps = append(info.fps, c09Variant(s.entry))
@@ -997,6 +1013,9 @@ func (sc *c09Scenario) round() {
 		if s.code == 200 {
 			if s.sct.index < oldSize {
 				cls = append(cls, "accepted-duplicate-of-earlier-round")
+				if sc.known[s.key].restarts < sc.restarts {
+					cls = append(cls, "accepted-duplicate-across-restart")
+				}
 			} else if len(sc.known[s.key].fps) > 1 {
 				cls = append(cls, "accepted-duplicate-within-round")
 			}
@@ -1064,9 +1083,11 @@ func c09FirstDiff(a, b []byte) int {
 	return min(len(a), len(b))
 }
 
-func c09Clip(b []byte) string {
-	if len(b) > 200 {
-		return string(b[:200]) + "…"
+func c09Clip(b []byte) string { return c09ClipN(b, 200) }
+
+func c09ClipN(b []byte, n int) string {
+	if len(b) > n {
+		return string(b[:n]) + "…"
 	}
 	return string(b)
 }
